@@ -188,3 +188,40 @@ class Takeover:
         ev = self.drain_events()
         pk = self.collect()
         return ev, pk
+
+
+def sut_transport_parameters(tk):
+    return transport_parameters(tk, tk.X)
+
+
+def transport_parameters(tk, who):
+    """The transport parameters endpoint `who` ("c"/"s") advertised, recovered from the decrypted wire by the independent
+    codecs (ClientHello for a client, EncryptedExtensions for a server).  -> dict name -> value"""
+    from . import reftls as L
+
+    space = "initial" if who == "c" else "handshake"
+    want = L.HT_CLIENT_HELLO if who == "c" else L.HT_ENCRYPTED_EXTENSIONS
+    chunks = {}
+    for v in tk.handshake_views[who]:
+        if v.space != space:
+            continue
+        for f in v.frames or []:
+            if f["name"] == "crypto":
+                chunks[f["offset"]] = bytes(f["data"])
+    data = bytearray()
+    for off in sorted(chunks):
+        if off <= len(data):
+            data[off : off + len(chunks[off])] = chunks[off]
+    pos = 0
+    while pos + 4 <= len(data):
+        ln = int.from_bytes(data[pos + 1 : pos + 4], "big")
+        msg = bytes(data[pos : pos + 4 + ln])
+        if len(msg) < 4 + ln:
+            break
+        if msg[0] == want:
+            d = L.decode_message(msg, strict=False)
+            body = L.find_extension(d["extensions"], L.EXT_QUIC_TRANSPORT_PARAMETERS)
+            if body is not None:
+                return R.tp_decode_typed(R.decode_transport_parameters(L.parse_quic_transport_parameters(body)))
+        pos += 4 + ln
+    return None
